@@ -599,6 +599,12 @@ def opTextObjDelim (req : Json) : Json :=
   let s : MS := ⟨gsOf req, jnat req "cur", jbool req "excl", false, ws⟩
   Json.mkObj [("mk", mkJson (Delim.evalTextObjDelim s (jstr req "opener").toList (jstr req "closer").toList (jbool req "around")))]
 
+/-- `{"op":"textobj_quote","gs":[..],"cur":n,"excl":b,"ws":[b..],"q":g,"around":b}`: `i"` `a"` … -/
+def opTextObjQuote (req : Json) : Json :=
+  let ws : List Bool := (jarr req "ws").toList.map (fun x => x.getBool?.toOption.getD false)
+  let s : MS := ⟨gsOf req, jnat req "cur", jbool req "excl", false, ws⟩
+  Json.mkObj [("mk", mkJson (Quote.evalTextObjQuote s (jstr req "q").toList (jbool req "around")))]
+
 /-- `{"op":"sentence","k":[0..4],"cur":n,"count":n,"fwd":b,"has_verb":b}` -/
 def opSentence (req : Json) : Json :=
   let k : List Nat := (jarr req "k").toList.map (fun x => x.getNat?.toOption.getD 0)
@@ -634,6 +640,7 @@ def dispatch (req : Json) : Json :=
   | "delim_match" => opDelimMatch req
   | "unmatched" => opUnmatched req
   | "textobj_delim" => opTextObjDelim req
+  | "textobj_quote" => opTextObjQuote req
   | op => Json.mkObj [("err", Json.str s!"unknown op {op}")]
 
 partial def loop (h : IO.FS.Stream) (out : IO.FS.Stream) : IO Unit := do
